@@ -58,6 +58,9 @@ def gen_case(rng, tier, ks=None):
             choices = [0, ks * 8]
             if bp is not None:
                 choices += [bp, bp + 1, max(0, bp - 1), min(ks * 8, bp + 2)]
+            else:
+                # an update of the tracked key itself needs none of the hashes: any pruned list must do
+                choices += [1, ks * 4, ks * 8 - 1, rng.randrange(ks * 8 + 1)]
             tr = rng.choice(choices)
         if rng.random() < 0.25:
             stream.append(("delete", k, tr))
